@@ -450,6 +450,80 @@ theorem C10_save_list (sess : Session) (uuid path : String) (fs : FS) (items : L
     no_other_plain items hplain, rootedRoots, rootedRoots_plain items [] hplain, no_rooted_plain items hplain, List.foldlM,
     bind, Except.bind, pure, Except.pure, hf]
 
+theorem classify_ao_ep (ep : String) : classifyMode (effectiveMode "ao" (some ep)) = some .appendover := by
+  have h1 : effectiveMode "ao" (some ep) = "ao" := by
+    have : EmdGen.appendOverModes.contains "ao" = true := by decide
+    simp only [effectiveMode, Option.isSome_some, this, Bool.not_true, Bool.and_false, Bool.false_eq_true, if_false]
+  rw [h1]; decide
+
+/-- C10, a rooted list item: the third phase of `save(path, [..., node, ...])` writes each rooted node ALONE under the
+    copy of its root, by `save(node, mode='ao', tree=False, emdpath=<root name>)`.  Through the public entry point: the
+    root group of that name gains exactly the node (without its branch) as a new last child; everything else in the file
+    and in the file system is untouched. -/
+theorem C10_rooted_item (sess : Session) (uuid path : String) (fs : FS) (f : Obj) (F Rt D : Tree)
+    (body' : List (String × Obj)) (m : String)
+    (hfs : fsLookup fs path = some (.h5 f)) (hemd : isEMDFile f = true)
+    (hF : F.rootedWF CT DT = true) (hR : Rt.rootedWF CT DT = true) (hname : Rt.name = F.name)
+    (hf : alookup F.name f.kids = some (encode F)) (hroot : (rootGroups f).contains F.name = true)
+    (hmdname : "metadatabundle" ∉ names F.kids)
+    (hmd : mdBody true F.info.body (mdEntries Rt.info) = .ok body')
+    (hD : Rt.at [m] = some D) (hnew : m ∉ names F.kids) (hbody : m ∉ akeys body') :
+    save sess uuid fs path (.rooted Rt [m]) "ao" .no (some Rt.name)
+      = .ok (fsSet fs path (.h5 (f.setKids (areplace F.name (encode ((withBody F body').addKid (.mk D.info []))) f.kids)))) := by
+  have h := C09_emdpath_root_new_single true f F Rt D body' m hF hR hname hf hroot hmdname hmd hD hnew hbody
+  rw [hname]
+  simp only [save, classify_ao_ep, saveClass, hfs, Src.resolve, saveAppend, hemd, h, bind, Except.bind, pure, Except.pure,
+    Bool.not_true, Bool.false_eq_true, if_false]
+
+theorem mdMergeEntries_self (existing : List String) (fe : List (String × Obj)) : ∀ (re : List (String × Obj)),
+    (∀ kv ∈ re, existing.contains kv.1 = true ∧ alookup kv.1 fe = some kv.2) → mdMergeEntries true existing fe re = .ok fe
+  | [], _ => by simp [mdMergeEntries, pure, Except.pure]
+  | (k, v) :: rest, h => by
+    obtain ⟨h1, h2⟩ := h (k, v) List.mem_cons_self
+    simp only [mdMergeEntries, h1, if_true, areplace_same_value k v fe h2]
+    exact mdMergeEntries_self existing fe rest (fun kv hkv => h kv (List.mem_cons_of_mem _ hkv))
+
+theorem alookup_of_mem_nodup {β : Type} : ∀ (l : List (String × β)) (k : String) (v : β), (akeys l).Nodup → (k, v) ∈ l →
+    alookup k l = some v
+  | [], _, _, _, h => by cases h
+  | (k', w) :: r, k, v, hn, h => by
+    simp only [akeys, List.map_cons, List.nodup_cons] at hn
+    simp only [alookup]
+    cases h with
+    | head => simp
+    | tail _ h' =>
+      have hne : k' ≠ k := by
+        intro e; subst e
+        exact hn.1 (List.mem_map.mpr ⟨(k', v), h', rfl⟩)
+      simp only [hne, if_false]
+      exact alookup_of_mem_nodup r k v hn.2 h'
+
+/-- merging a root's own metadata entries into a root that already holds exactly those entries changes nothing: the copy
+    of a root written for rooted list items, and every later item of the same root, see the same body -/
+theorem mdBody_self (body : List (String × Obj)) (i : NodeInfo) (hi : i.body = body)
+    (hsane : ∀ b, alookup "metadatabundle" body = some b →
+      b.isGroup = true ∧ (akeys b.kids).Nodup ∧ b.kids.all (fun kv => kv.2.gtype == some "metadata") = true) :
+    mdBody true body (mdEntries i) = .ok body := by
+  unfold mdBody mdEntries
+  rw [hi]
+  cases hb : alookup "metadatabundle" body with
+  | none => simp [pure, Except.pure]
+  | some b =>
+    obtain ⟨hg, hnd, hall⟩ := hsane b hb
+    by_cases he : b.kids.isEmpty = true
+    · simp [he, pure, Except.pure]
+    · simp only [he, Bool.false_eq_true, if_false]
+      have hfil : b.kids.filter (fun kv => kv.2.gtype == some "metadata") = b.kids := by
+        rw [List.filter_eq_self]; intro x hx; exact (List.all_eq_true.mp hall) x hx
+      have hself := mdMergeEntries_self (b.kids.map (·.1)) b.kids b.kids (fun kv hkv => by
+        refine ⟨?_, alookup_of_mem_nodup b.kids kv.1 kv.2 hnd hkv⟩
+        simp only [List.contains_eq_mem, decide_eq_true_eq]
+        exact List.mem_map.mpr ⟨kv, hkv, rfl⟩)
+      rw [hfil]
+      simp only [hself, bind, Except.bind, pure, Except.pure]
+      have hbb : b.setKids b.kids = b := by cases b <;> rfl
+      rw [hbb, areplace_same_value "metadatabundle" b body hb]
+
 -- non-vacuity of `C10_save_list`: a mixed list (two Roots, an unrooted node, an array, a dict) meets its hypotheses;
 -- the file then holds root_savedlist (node, array_0, dictionary_0), then the two given trees
 def exItems : List Item :=
